@@ -182,8 +182,13 @@ InvC18 == NoFails(C18_Fails(buf, verdict))
 MCLive == MCSpec /\ WF_mvars(MCNext)
 LiveDelivery == <>(buf = full)
 LiveC18 == V1!FinalWindow(full) => <>(HasFlags(verdict["v1b"]) /\ verdict["v1b"].cmp /\ HasFlags(verdict["auto"]) /\ verdict["auto"].cmp)
-(* and a complete verdict stays complete *)
-StableC18 == [][(HasFlags(verdict["v1b"]) /\ verdict["v1b"].cmp) => (HasFlags(verdict'["v1b"]) /\ verdict'["v1b"].cmp)]_mvars
+(* and once the final window is reached a complete verdict stays complete.  (Before that window a
+   terminal verdict is NOT necessarily stable in the crate, nor in this model of it: `PROXY  PROX`
+   is InvalidProtocol, one byte later `PROXY  PROXY` is Partial again, because the keyword check
+   asks whether the input ENDS with the first token.  No listed property forbids that - C18 speaks
+   about the final window only - so the unrestricted form of this property, which TLC refuted on
+   the base line `PROXY UNKNOWN PROXY` with its protocol replaced by nothing, was too strong.) *)
+StableC18 == [][(V1!FinalWindow(buf) /\ HasFlags(verdict["v1b"]) /\ verdict["v1b"].cmp) => (HasFlags(verdict'["v1b"]) /\ verdict'["v1b"].cmp)]_mvars
 
 (* one scenario per completed behaviour *)
 Export ==
